@@ -182,3 +182,81 @@ def run_filter(ctx, info):
             C.report(ctx, "two-stores-filter:%s:%s" % (c["scenario"], "inside" if o["b_inside"] else "after"), "; ".join(problems),
                      {"kind": "history", "case": c, "observed": o, "allowed_outcomes": sorted(FILTER_ALLOWED[c["scenario"]])})
     return {"two_stores_filter": stats}
+
+
+# ---------------------------------------------------------------------------
+# a second process re-lets a message while the first process's late lease operation is in progress (C03 / C04)
+
+def run_relet(ctx, info):
+    """worker A answers after its lease ran out; at every clock reading of that call the other process's dequeue runs.  Whatever the
+    interleaving: a message handed to worker B is B's while B's lease runs - a third dequeue does not return it, and B's extend and
+    ack on its lease are accepted."""
+    cases = [{"a_op": op, "hook_at": k, "extra": e}
+             for op in ("ack", "nack", "dead", "extend", "ack_batch", "nack_batch", "dead_batch") for k in (1, 2, 3) for e in (0, 2)]
+    rc, out, err = C.harness_run(info["hbin"], ["two-stores-relet"], {"dir": os.path.join(ctx.scratch, "tworelet"), "cases": cases}, timeout=600)
+    if rc != 0:
+        raise RuntimeError("two-stores-relet failed: " + err[-1500:])
+    stats = {"cases": len(cases), "second_process_inside_call": 0, "second_process_refused_busy": 0, "relet": 0}
+    for c, o in zip(cases, json.loads(out)["cases"]):
+        if o.get("err"):
+            raise RuntimeError("two-stores-relet case %s: %s" % (c, o["err"]))
+        stats["second_process_inside_call"] += 1 if o["b_inside"] else 0
+        stats["second_process_refused_busy"] += 1 if o["b_busy"] else 0
+        b_items = o.get("b_items") or []
+        problems = []
+        if "evt_1" in b_items:
+            stats["relet"] += 1
+            if not o["b_lease_live"]:
+                problems.append("worker B was handed evt_1 under a lease that is not live")
+            again = [i for i in (o.get("third") or []) if i in b_items]
+            if again:
+                problems.append("a third dequeue one millisecond later returned %s although worker B's one-minute lease on it had just begun" % again)
+            if o["extend_err"] or o["ack_err"]:
+                problems.append("worker B's extend / ack on its live lease were answered %r / %r" % (o["extend_err"], o["ack_err"]))
+        else:
+            problems.append("the second process's dequeue did not get the message whose lease had run out (%s)" % b_items)
+        if problems:
+            where = "inside" if o["b_inside"] else ("after-busy" if o["b_busy"] else "after")
+            C.report(ctx, "two-stores-relet:%s:%s" % (c["a_op"], where), "; ".join(problems),
+                     {"kind": "history", "case": c, "observed": o,
+                      "calls": ["stores A and B opened on one SQLite file", "A.Enqueue(evt_1..); A.Dequeue -> leases (1 s) for worker A", "clock +2 s (expired, not swept)",
+                                "A.%s(worker A's lease(s)) with B.Dequeue(lease 1 m, for worker B) run at A's clock reading no. %d" % (c["a_op"], c["hook_at"]),
+                                "clock +1 ms; A.Dequeue (third worker); B.Extend / B.Ack on worker B's lease"]})
+    return {"two_stores_relet": stats}
+
+
+def run_busy(ctx, info):
+    """the gateway's dequeue is refused as busy (another process holds the write lock); afterwards the gateway keeps working: its next
+    dequeue returns, and returns the message whose lease had run out (C05)"""
+    cases = [{"hook_at": k, "b_op": b} for b in ("extend", "nack", "dead") for k in (1, 2, 3)]
+    rc, out, err = C.harness_run(info["hbin"], ["two-stores-busy"], {"dir": os.path.join(ctx.scratch, "twobusy"), "cases": cases}, timeout=600)
+    if rc != 0:
+        raise RuntimeError("two-stores-busy failed: " + err[-1500:])
+    stats = {"cases": len(cases), "refused_busy": 0, "arrived_before_the_lock": 0}
+    for c, o in zip(cases, json.loads(out)["cases"]):
+        if o.get("err"):
+            raise RuntimeError("two-stores-busy case %s: %s" % (c, o["err"]))
+        if o["first_err"]:
+            stats["refused_busy"] += 1
+        elif o["attempted"]:
+            stats["arrived_before_the_lock"] += 1
+        problems = []
+        got = (o.get("first_items") or []) + (o.get("second_items") or [])
+        if not o["second_returned"]:
+            problems.append("after a dequeue that was refused (%s) the gateway's next dequeue did not return within five seconds" % (o["first_err"] or "-"))
+        elif o["second_err"]:
+            problems.append("the gateway's next dequeue failed: %s" % o["second_err"])
+        elif "evt_1" not in got:
+            problems.append("the message whose lease had run out was not offered again (first dequeue %s / %r, second %s)" % (
+                o.get("first_items"), o["first_err"], o.get("second_items")))
+        elif not o["stats_returned"]:
+            problems.append("Stats did not return within five seconds after the refused dequeue")
+        if problems:
+            C.report(ctx, "two-stores-busy:%s" % ("refused" if o["first_err"] else "not-refused"), "; ".join(problems),
+                     {"kind": "history", "case": c, "observed": o,
+                      "calls": ["stores A (gateway, busy_timeout 15 ms) and B opened on one SQLite file", "evt_2 leased by B (1 s), evt_1 leased by A (1 s); clock +2 s",
+                                "B.%s(its expired lease) with A.Dequeue run at B's clock reading no. %d (no. 2 is inside B's write transaction)" % (c["b_op"], c["hook_at"]),
+                                "clock +1 s; A.Dequeue(batch 5); A.Stats"]})
+    if stats["refused_busy"] == 0:
+        ctx.notes.append("two-stores-busy: no dequeue was refused as busy in this run (the lock-holding call no longer reads the clock inside its transaction?)")
+    return {"two_stores_busy": stats}
